@@ -283,11 +283,14 @@ static void drain(void) {
 		sn_now += 1;
 	}
 	if (outstanding() > 0) HF("request-lost", "%d accepted request(s) never handed back within 60 further rounds / 60 virtual seconds", outstanding());
-	/* transfers that the harness never completed are completed now so that nothing stays attached to the multi handle
-	 * (a service freed with transfers in flight is the separate known finding recorded under C19) */
+	/* transfers that the harness never completed stay attached to the multi handle: the service is then freed with
+	 * transfers in flight (it has to detach and release them; world_close checks that nothing is left allocated).
+	 * In every second drain they are completed first, so that both ways of ending are exercised */
 	fc_multi_perform_result = 0;
-	for (i = 0; i < 64; i++) { fc_easy *e = fc_pending(0); if (!e) break; fc_complete(e, 7, 0, NULL, 0, 0); }
-	{ KSI_AsyncHandle *o = NULL; size_t w = 0; KSI_AsyncService_run(W.svc, &o, &w); if (o) { HF("late-handle", "a handle was returned although nothing was outstanding"); KSI_AsyncHandle_free(o); } }
+	if ((W.nreq + W.nreturned) & 1) {
+		for (i = 0; i < 64; i++) { fc_easy *e = fc_pending(0); if (!e) break; fc_complete(e, 7, 0, NULL, 0, 0); }
+		{ KSI_AsyncHandle *o = NULL; size_t w = 0; KSI_AsyncService_run(W.svc, &o, &w); if (o) { HF("late-handle", "a handle was returned although nothing was outstanding"); KSI_AsyncHandle_free(o); } }
+	}
 }
 
 /* ------------------------------------------------------------------ canonical key */
@@ -363,6 +366,53 @@ static void explore(const config_t *cfg, int *hist, int n, int maxdepth) {
 	for (ev = 0; ev < EV_NEVENTS; ev++) { hist[n] = ev; explore(cfg, hist, n + 1, maxdepth); }
 }
 
+/* deviation-bounded search over a long default run: three complete request cycles (add, run, valid completion, run); a
+ * deviation is the insertion of any one event at any position; all schedules with up to D insertions are executed to
+ * completion and followed by the drain phase. Reaches what the depth bound of the exhaustive search cannot: objects
+ * recycled from an earlier request cycle, counters after several completed cycles */
+static const int BASE[] = {EV_ADD, EV_RUN, EV_DONE_VALID, EV_RUN, EV_ADD, EV_RUN, EV_DONE_VALID, EV_RUN, EV_ADD, EV_RUN, EV_DONE_VALID, EV_RUN};
+#define NBASE ((int)(sizeof BASE / sizeof *BASE))
+static long dfs_runs;
+static void run_schedule(const config_t *cfg, const int *ins_pos, const int *ins_ev, int nins) {
+	int i, k, n = 0;
+	world_open(cfg);
+	g_cfg = (int)(cfg - CONFIGS);
+	g_hist[0] = 0;
+	for (i = 0; i <= NBASE && !W.violated; i++) {
+		for (k = 0; k < nins; k++) if (ins_pos[k] == i) { if (n < (int)sizeof g_hist - 2) { g_hist[n++] = EVCH[ins_ev[k]]; g_hist[n] = 0; } apply(ins_ev[k]); n_transitions++; }
+		if (i < NBASE) { if (n < (int)sizeof g_hist - 2) { g_hist[n++] = EVCH[BASE[i]]; g_hist[n] = 0; } apply(BASE[i]); n_transitions++; }
+	}
+	if (!W.violated) drain();
+	world_close();
+	dfs_runs++;
+}
+static void part_dfs(void) {
+	int maxdev = VF_THOROUGH ? 3 : 2, ci, p1, e1;
+	static const int CFG_IDX[] = {1, 0};
+	for (ci = 0; ci < (VF_THOROUGH ? 2 : 1); ci++) for (p1 = 0; p1 <= NBASE; p1++) for (e1 = 0; e1 < EV_NEVENTS; e1++) {
+		const config_t *cfg = &CONFIGS[CFG_IDX[ci]];
+		int pos[3], evs[3], p2, e2, p3, e3;
+		if (!vf_case_begin("httpdfs:cfg%d:ins%d%c:dev%d", CFG_IDX[ci], p1, EVCH[e1], maxdev)) continue;
+		dfs_runs = 0; n_transitions = 0;
+		pos[0] = p1; evs[0] = e1;
+		if (p1 == 0 && e1 == 0) run_schedule(cfg, pos, evs, 0);
+		run_schedule(cfg, pos, evs, 1);
+		for (p2 = p1; p2 <= NBASE && maxdev >= 2; p2++) for (e2 = 0; e2 < EV_NEVENTS; e2++) {
+			if (p2 == p1 && e2 < e1) continue;
+			pos[1] = p2; evs[1] = e2;
+			run_schedule(cfg, pos, evs, 2);
+			for (p3 = p2; p3 <= NBASE && maxdev >= 3; p3++) for (e3 = 0; e3 < EV_NEVENTS; e3++) {
+				if (p3 == p2 && e3 < e2) continue;
+				pos[2] = p3; evs[2] = e3;
+				run_schedule(cfg, pos, evs, 3);
+			}
+		}
+		vf_count("traces", dfs_runs); vf_count("transitions", n_transitions); vf_count("dfs_schedules", dfs_runs);
+		vf_obs("runs=%ld", dfs_runs);
+		vf_case_end(1);
+	}
+}
+
 static void run(void) {
 	int ci, e1, e2;
 	int depth = VF_THOROUGH ? 7 : 5;
@@ -383,6 +433,7 @@ static void run(void) {
 		}
 	}
 	free(seen);
+	part_dfs();
 }
 
 int main(int argc, char **argv) {
